@@ -217,7 +217,9 @@ def judgeMapSeq (lim : Limits) (v : String) : List String :=
 
 /-- an evaluation that returned normally although its program makes more code-less callbacks than the budget -/
 def judgeCallbacks (lim : Limits) : List String :=
-  (if lim.cost > 0 ∧ (lim.noCodeCallbacks : Int) > lim.cost + handlerAllowance then
+  -- (every callback costs a tick of its own: a normal return after at least as many callbacks as the budget has ticks is
+  -- impossible; no allowance belongs here - the callbacks run before any error is delivered)
+  (if lim.cost > 0 ∧ (lim.noCodeCallbacks : Int) ≥ lim.cost then
     [s!"eval-exceeded uncharged-callbacks callbacks={lim.noCodeCallbacks} budget={lim.cost}"]
   else []) ++
   -- ... or although one of its regexp matches alone needs more node visits than the budget pays for
